@@ -127,9 +127,10 @@ fn exact_3d(d: &mut Draw) -> Outcome {
 fn f64_3d(d: &mut Draw) -> Outcome {
     let eye = Point3::from(f_vec3(d, -50.0, 50.0));
     let dn = f_unit3(d);
-    // lengths over many orders of magnitude: the constructors normalise, so the statement is scale-free
+    // lengths over many orders of magnitude (as far as |dir|^2 and |up|^2 stay finite): the constructors
+    // normalise each input before combining them, so the statement is scale-free
     let wide = d.chance(1, 3);
-    let len = if wide { d.f64_log(1e-30, 1e30) } else { d.f64_log(1e-2, 1e2) };
+    let len = if wide { d.f64_log(1e-140, 1e140) } else { d.f64_log(1e-2, 1e2) };
     let dir = Vector3::from(scale3(&dn, len));
     // up at least 0.05 rad away from +-dir
     let ang = d.f64_in(0.05, std::f64::consts::PI - 0.05);
@@ -140,7 +141,7 @@ fn f64_3d(d: &mut Draw) -> Outcome {
         let phi = d.f64_in(0.0, 2.0 * std::f64::consts::PI);
         [a[0] * phi.cos() + b[0] * phi.sin(), a[1] * phi.cos() + b[1] * phi.sin(), a[2] * phi.cos() + b[2] * phi.sin()]
     };
-    let ul = if wide { d.f64_log(1e-30, 1e30) } else { d.f64_log(1e-2, 1e2) };
+    let ul = if wide { d.f64_log(1e-140, 1e140) } else { d.f64_log(1e-2, 1e2) };
     let up = Vector3::from([
         ul * (dn[0] * ang.cos() + p[0] * ang.sin()),
         ul * (dn[1] * ang.cos() + p[1] * ang.sin()),
@@ -190,9 +191,10 @@ fn exact_2d(d: &mut Draw) -> Outcome {
 
 fn f64_2d(d: &mut Draw) -> Outcome {
     let phi = d.f64_in(-3.2, 3.2);
-    // lengths over many orders of magnitude: the constructors normalise, so the statement is scale-free
+    // lengths over many orders of magnitude (as far as |dir|^2 and |up|^2 stay finite): the constructors
+    // normalise each input before combining them, so the statement is scale-free
     let wide = d.chance(1, 3);
-    let len = if wide { d.f64_log(1e-30, 1e30) } else { d.f64_log(1e-2, 1e2) };
+    let len = if wide { d.f64_log(1e-140, 1e140) } else { d.f64_log(1e-2, 1e2) };
     let dir = Vector2::new(len * phi.cos(), len * phi.sin());
     let off = d.f64_in(0.05, std::f64::consts::PI - 0.05) * if d.bool() { 1.0 } else { -1.0 };
     let ul = d.f64_log(1e-2, 1e2);
